@@ -160,6 +160,46 @@ func (g *c03G) blockString() string {
 	return open + sp + body + sp + cl
 }
 
+// blockStringWS: multi-line block strings (markdown / code) whose lines carry significant white space: trailing
+// spaces or tabs on interior lines (markdown hard breaks, code), white-space-only lines shorter than, equal to
+// and longer than the indentation, tabs, first and last lines affected.
+func (g *c03G) blockStringWS() string {
+	tag := g.pick([]string{"md", "md", "", "go", "txt", "python", "latex"})
+	q := g.pick([]string{"", "", "", "|", "`"})
+	ind := g.pick([]string{"  ", "  ", "    ", "\t", " ", "      "})
+	n := 2 + g.r.Intn(4)
+	var lines []string
+	for i := 0; i < n; i++ {
+		switch g.r.Intn(8) {
+		case 0: // white-space-only line of a length relative to the indentation
+			switch g.r.Intn(6) {
+			case 0:
+				lines = append(lines, "")
+			case 1:
+				lines = append(lines, ind[:len(ind)/2])
+			case 2:
+				lines = append(lines, ind)
+			case 3:
+				lines = append(lines, ind+" ")
+			case 4:
+				lines = append(lines, ind+g.pick([]string{"    ", "  ", "\t", " \t ", "        "}))
+			default:
+				lines = append(lines, g.pick([]string{"\t", "\t\t", "   \t", "          "}))
+			}
+		case 1, 2: // trailing white space
+			lines = append(lines, ind+g.pick([]string{"line one", "x := 1", "- item", "# Title", "a | b"})+g.pick([]string{"  ", " ", "\t", "   \t", "  "}))
+		case 3: // deeper indentation
+			lines = append(lines, ind+g.pick([]string{"  ", "\t", "    "})+g.pick([]string{"nested", "return x", "* sub"})+g.pick([]string{"", "", "  "}))
+		default:
+			lines = append(lines, ind+g.pick([]string{"plain text", "second line", "func f() {", "}", "end"}))
+		}
+	}
+	// at least one line with content so that the block is not empty
+	lines[g.r.Intn(len(lines))] = ind + "content" + g.pick([]string{"", "", "  ", "\t"})
+	cl := q + "|"
+	return "|" + q + tag + "\n" + strings.Join(lines, "\n") + "\n" + g.pick([]string{"", "", ind[:len(ind)/2]}) + cl
+}
+
 func (g *c03G) subst() string {
 	if len(g.vars) > 0 && (g.compilable || g.r.Chance(0.8)) {
 		return "${" + g.vars[g.r.Intn(len(g.vars))] + "}"
@@ -219,8 +259,10 @@ func (g *c03G) scalar() string {
 		return g.pick([]string{"1", "42", "3.14", "-5", "1e3", "0x10", "1/2", "007", "1_0"})
 	case n < 65:
 		return g.pick([]string{"null", "true", "false", "Null", "TRUE", "False", "NULL"})
-	case n < 78:
+	case n < 72:
 		return g.blockString()
+	case n < 78:
+		return g.blockStringWS()
 	case n < 86:
 		switch g.r.Intn(4) {
 		case 0:
@@ -577,6 +619,33 @@ func (g *c03G) mapBody(depth, n int, oneLine bool) string {
 	}
 	b.WriteString(strings.Repeat("  ", depth) + "}")
 	return b.String()
+}
+
+// c03BlockWSProgram: a small program built around block strings with significant white space (trailing spaces /
+// tabs on interior lines, white-space-only lines around the indentation width), as object and connection
+// labels, at nesting depth 0..2.
+func c03BlockWSProgram(r *Rng) string {
+	g := &c03G{r: r, compilable: true}
+	depth := r.Intn(3)
+	var lines []string
+	n := 1 + r.Intn(2)
+	for i := 0; i < n; i++ {
+		key := g.pick([]string{"poem", "code", "note", "a -> b", "x.label", "t"})
+		bs := g.blockStringWS()
+		if r.Chance(0.3) {
+			lines = append(lines, g.pick(c03Plain))
+		}
+		lines = append(lines, key+": "+bs)
+	}
+	body := strings.Join(lines, "\n")
+	for d := 0; d < depth; d++ {
+		ind := "  "
+		if r.Chance(0.2) {
+			ind = g.pick([]string{"\t", "    ", " "})
+		}
+		body = g.pick([]string{"c", "box", "outer"}) + ": {\n" + ind + strings.ReplaceAll(body, "\n", "\n"+ind) + "\n}"
+	}
+	return body + "\n"
 }
 
 // program generates one D2 program.
